@@ -79,6 +79,13 @@ func (vc *VC) scriptSel(only int, sel func(*Obligation) bool, timeoutMs int, sol
 		}
 		fmt.Fprintf(&body, "(assert %s)\n", goal)
 	}
+	if only < 0 {
+		// end probe: the facts and the assumed obligations of the whole function must not be contradictory
+		if !strings.HasPrefix(solver, "cvc5") {
+			body.WriteString("(set-option :timeout 150)\n")
+		}
+		body.WriteString("(echo \"ob -2\")\n(check-sat)\n")
+	}
 	bs := body.String()
 	b.WriteString(prelude)
 	for _, d := range vc.e.structDeclsFor(bs) {
@@ -245,7 +252,7 @@ func (vc *VC) SolveSel(sel func(*Obligation) bool, perCheckMs int, escalate bool
 		quick := 250
 		sc := vc.scriptSel(-1, sel, quick, solverZ3New.Name)
 		r := runSolver(solverZ3New, sc, time.Duration(quick*n+5000)*time.Millisecond, quick)
-		if r.results[-1] == "unsat" {
+		if r.results[-1] == "unsat" || r.results[-2] == "unsat" {
 			vc.Vacuous = true
 		}
 		open := map[*Obligation]bool{}
@@ -273,7 +280,7 @@ func (vc *VC) SolveSel(sel func(*Obligation) bool, perCheckMs int, escalate bool
 	total := time.Duration(perCheckMs*n+5000) * time.Millisecond
 	r := runSolver(solverZ3New, sc, total, perCheckMs)
 	per := time.Since(start).Milliseconds() / int64(n)
-	if r.results[-1] == "unsat" {
+	if r.results[-1] == "unsat" || r.results[-2] == "unsat" {
 		vc.Vacuous = true
 	}
 	for _, ob := range vc.obls {
@@ -379,6 +386,10 @@ func (vc *VC) solveStandalone(sel func(*Obligation) bool, perCheckMs int) {
 func softKind(ob *Obligation) bool {
 	switch ob.Kind {
 	case "nlfree-msg", "nlfree-store", "folded-key", "folded-store", "folded-elems":
+		return true
+	case "forbid-call", "loop-complete", "loop-nobreak", "loop-noreturn", "format-const", "map-order", "shared-write", "immutable-store":
+		// syntactic disciplines: a failing one has the condition `false`; assuming it afterwards would make
+		// the rest of the function vacuously provable
 		return true
 	case "requires":
 		i := strings.LastIndex(ob.Text, ": ")
